@@ -415,6 +415,11 @@ def probes(run):
                 out["clock_moved_during_now_relative_op"] += 1
             if "locale" not in (op[4] if len(op) > 4 else {}) and any(w[0] < rec["ret"] and w[1] > rec["inv"] for w in lw):
                 out["locale_flipped_during_default_locale_op"] += 1
+            tgt = op[1]
+            if not op[3] and isinstance(tgt, dict) and tgt.get("$") == "p" and run.sc["pool_meta"][tgt["i"]]["kind"] == "dt":
+                inst = run.sc["pool_meta"][tgt["i"]]["inst"]
+                if any(abs(inst - c) <= US for c in reg_candidates(run, rec)["clock"]):
+                    out["clock_within_1s_of_instance"] += 1
     return out
 
 
